@@ -26,7 +26,7 @@ def work_items(env_names, tier, flt, n_quick, n_thorough, cost=None):
 
 
 def run_item(prop, item, seed, make_monitor, max_len=60, styles=None, after_last=0,
-             legal_fn_factory=None, per_episode=None, stop_at_last=True, setup=None):
+             legal_fn_factory=None, per_episode=None, stop_at_last=True, setup=None, deep=False):
     """Generic driver: Hypothesis draws (key, plan); the plan is played with the jitted env and
     the property's monitor is evaluated at every step.  `per_episode(ctx, b, rec, summary)` can
     add classification counters / non-triviality digests."""
@@ -44,6 +44,12 @@ def run_item(prop, item, seed, make_monitor, max_len=60, styles=None, after_last
 
         def one(key, plan):
             plan = episodes.restyle(plan, counter["i"], b.name)
+            dp = b.meta.get("deep") if deep else None
+            if dp and counter["i"] % 3 == 2:
+                # deep start (every third case): the number of scripted steps comes from the drawn plan
+                lo, hi = dp["steps"]
+                plan = dict(plan, prefix={"policy": dp["policy"], "steps": lo + plan["steps"][0][1] % (hi - lo + 1)})
+                ctx.count("deep_starts")
             counter["i"] += 1
             rec = episodes.Recorder(ctx, b, key)
             mon = make_monitor(b, ctx, shared)
@@ -88,7 +94,7 @@ def replay(prop, case, make_monitor, setup=None):
     ctx = Ctx(prop, {})
     b = envs.bundle(case["env"], case["entry"], **case.get("overrides", {}))
     shared = setup(ctx, b) if setup else None
-    rec = episodes.Recorder(ctx, b, case["key"])
+    rec = episodes.Recorder(ctx, b, case["key"], extra={"prefix": case["prefix"]} if case.get("prefix") else None)
     mon = make_monitor(b, ctx, shared)
     with ctx.guard(case["env"], case):
         episodes.run_actions(b, rec, case["actions"], mon)
